@@ -12,6 +12,7 @@ from . import c03
 from .c02 import cb_invocations, TCP, UDP, FILES
 
 TITLE = "Stopping or destroying a transport never strands, crashes or races"
+TECHNIQUE = 'custom static analysis over clang-14 CFG facts: must-lockset + lock-order table, thread-root confinement over the call graph, no-callback-under-lock summaries, may-free typestate for Session*'
 IMPL, SYNC, SRB, SCO = c03.IMPL, c03.SYNC, c03.SRB, c03.SCO
 TR = "iora::network::Transport"
 TFILE = c03.FILE
